@@ -21,7 +21,8 @@ func genC16(g *gen) {
 		f    func(*gen)
 		keep int // keep 1 of `keep` matching programs in the quick tier
 	}{{"C01", genC01, 2}, {"C02", genC02, 6}, {"C03", genC03, 2}, {"C04", genC04, 1}, {"C05", genC05, 3}, {"C13", genC13, 2},
-		{"C08", generators["C08"], 1}, {"C09", generators["C09"], 1}, {"C10", generators["C10"], 1}, {"C14", generators["C14"], 3}, {"C15", generators["C15"], 2}} {
+		{"C08", generators["C08"], 1}, {"C09", generators["C09"], 1}, {"C10", generators["C10"], 1}, {"C14", generators["C14"], 3}, {"C15", generators["C15"], 2},
+		{"C17conv", generators["C17compat"], 1}} {
 		if sub.f == nil {
 			continue
 		}
